@@ -26,6 +26,20 @@ CLAIMED = {
          'follows the repaired code.',
     technique='Coq proof (induction over text, generic in the codec) over hand model; differential correspondence (tie B) under ASan',
     design='6/C12'),
+ 'C13': dict(
+    text='Theorems over a byte-level model of FindCmapSubtable / CheckCmapSubtable4,12 / CmapSubtable4,12Lookup,NextCodepoint and the cache fill '
+         'loop: (1) the fill loop terminates for ANY iteration/lookup functions, hence any table bytes; (2) for arbitrary bytes accepted by the '
+         'Check functions the format-4 binary search and format-12 scan never read outside the table, for every code point and key; (3) cached = '
+         'direct on every code point up to the limit given the NextCodepoint/Lookup interface (keys valid, only unmapped code points skipped) - '
+         'PARTIAL: the interface facts for the concrete format-4/12 functions are not proved, they are exercised differentially.  Tie B: the '
+         'extracted model (array-backed reads) vs DirectCmap/CachedCmap on a bare Face under ASan for hundreds of synthesised well-formed and '
+         'malformed cmaps at every boundary code point, with an independent OpenType reference as oracle; API level: all 0x110000 code points of '
+         'shipped fonts, direct vs cached vs an independent parser.',
+    note='Trusted: Coq kernel; extraction + driver (array accessor); harness impl_cmap.cpp; Python cmap generator / reference; ASan.  Not proved: '
+         'lookup4 = OpenType spec (binary search correctness) and iteration completeness - covered by tie B and the exhaustive per-font sweeps only. '
+         'Two defects found were repaired (fix: commits): last code point of a range / code point 1 never cached; BMP taken from format 12.',
+    technique='Coq proof (loop invariant, termination measure, bounds) over hand model + differential correspondence and exhaustive per-font sweep with reference oracle',
+    design='6/C13'),
  'C14': dict(
     text='Theorem over a faithful array model of lz4::decompress (suffix cursor for the input, checked block reads/writes on an output array, '
          'overrun_copy storing whole machine words): for ARBITRARY input bytes, output size and initial output content the decoder never reads '
